@@ -46,6 +46,31 @@ CHECKS = {
                       "unchanged; misbehaving peers are evicted; whenever a session ends or is cancelled nothing of it is left behind.",
         "level_note": _TRUST,
     },
+    "C16": {
+        "pkgs": ["./pkg/netceptor"],
+        "bounds": "one packet (sender local / neighbour / remote, service names 0,1,2,8 bytes, payload <= 1 byte) against a target service that is "
+                  "unbound, bound and open, or bound and closed, with and without a dropping firewall rule; one unreachable notification with "
+                  "arbitrary 1-2 byte address fields and any problem text arriving at a node with 3 real sockets and one monitored dial",
+        "assumptions": ["name hash injective"],
+        "outside": ["the dial actually returning early (quic-go reacting to the cancelled context)", "broker fan-out under concurrent publishers"],
+        "level_text": "Bounded symbolic execution of handleMessageData's unknown-service branch, sendUnreachable/handleUnreachable, the real "
+                      "ListenPacket/StartUnreachable/SubscribeUnreachable broker plumbing and monitorUnreachable: exactly one 'service unknown' "
+                      "notice with the original addresses goes to a remote sender (an error to a local one), nothing on a policy drop; only the "
+                      "socket named as source sees a notification; a dial is abandoned only by a notice about the dialled address.",
+        "level_note": _TRUST,
+    },
+    "C18": {
+        "pkgs": ["./pkg/netceptor"],
+        "bounds": "one advertisement/withdrawal with arbitrary timestamp, type, tag against a table that holds / does not hold / has seen withdrawn "
+                  "the same or another (node, service); two and three messages about one service with distinct timestamps in every delivery order; "
+                  "one local advertised listener opened and closed through the real API",
+        "assumptions": ["origin timestamps of different messages about one service are distinct (nanosecond clock of one owner)"],
+        "outside": ["network-wide convergence of the flooding", "clock skew between owners (timestamps of one service come from one owner)"],
+        "level_text": "Bounded symbolic execution of handleServiceAdvertisement, Add/RemoveLocalServiceAdvertisement, sendServiceAds and the socket "
+                      "open/close path: a message not newer than what is known (record or withdrawal) changes nothing and is not relayed, a newer one "
+                      "replaces/removes the record and is relayed once, not back; any delivery order of 2-3 messages ends as the latest one alone.",
+        "level_note": _TRUST,
+    },
     "C10": {
         "pkgs": ["./pkg/netceptor"],
         "bounds": "step lemma for all 256 budgets, arbitrary routing table (no route / via B / via C / via unconnected X) for source and "
